@@ -76,6 +76,66 @@ def every_boundary(quick):
     return cases
 
 
+def abort_family():
+    """Engine-only (the machine has no abort path): a recursive start chain is refused by the native-stack
+    depth guard (MaxStackDepth); whatever the abort leaves behind must be gone after Reset, after a recompile
+    of its script, and after load + Reset.  (description, lines)"""
+    cases = []
+    starts = ["thread t0 (local.n + 1)", "waitthread t0 (local.n + 1)", "local.r = waitthread t0 (local.n + 1)",
+              "level thread t0 (local.n + 1)", "local thread t0 (local.n + 1)"]
+    for st in starts:
+        src = ("t0 local.n:\nprintln (\"d\" + local.n)\n%s\nprintln (\"back\" + local.n)\nwait 0.125\n"
+               "println (\"late\" + local.n)\nend\nt1:\nprintln \"other\"\nwait 0.125\nend\n" % st)
+        sl = "script m " + src.encode().hex()
+        for depth in (1, 3, 7):
+            head = ["reset", "cfg depth %d" % depth, sl, "call m t0 i0", "step 0"]
+            for mid in (["reset-director", sl], [sl], ["save", "load", "reset-director", sl], ["step 125", "reset-director", sl],
+                        ["call m t0 i0", "reset-director", sl]):
+                cases.append((st + " depth=%d then %s" % (depth, "+".join(m.split(" ")[0] for m in mid)),
+                              head + mid + ["call m t1", "step 125", "step 1000", "reset-director"]))
+    return cases
+
+
+def engine_only_family(ctx, exe):
+    """runs `abort_family` on the real engine only; every answer goes through the monitor, every Reset and
+    every recompile of the only script must leave all pools empty, the last line must be idle and empty"""
+    n = bad = 0
+    for desc, lines in abort_family():
+        impl, crash, info = common.run_lines(exe, [], lines, timeout=60)
+        n += 1
+        why = None
+        if crash:
+            why = "crash: " + crash
+        elif len(impl) != len(lines):
+            why = "engine answered %d lines for %d commands" % (len(impl), len(lines))
+        else:
+            for i, l in enumerate(impl):
+                f = schedcheck.fields(l)
+                m = monitor(l)
+                if not m and i > 2 and (lines[i] == "reset-director" or lines[i].startswith("script ")) and any(
+                        int(f.get(k, "0")) for k in ("cls", "thr", "vm", "tim")):
+                    m = "Reset / recompile left something alive: " + l
+                if not m and i == len(impl) - 1 and f.get("idle") != "1":
+                    m = "not idle at the end: " + l
+                if m:
+                    why = "line %d `%s`: %s" % (i, lines[i][:40], m)
+                    break
+        if why is None:
+            continue
+        bad += 1
+        if bad <= 3:
+            sig = crash if crash else "phi:abort-then-clean"
+            replay = common.save_replay(ctx, {
+                "property": "C13", "kind": "engine-only family", "case": desc, "lines": lines, "impl_out": impl,
+                "crash": crash, "crash_info": info if crash else "", "signature": sig, "why": why,
+                "how_to_replay": "python3 tools/check.py C13 --replay <this file>"})
+            ctx.violations.append({"signature": sig, "replay": replay, "why": why, "found_input": True})
+    ctx.oblige("engine-only: MaxStackDepth abort of a recursive start chain, then Reset / recompile / load leave nothing (%d scenarios)" % n,
+               bad == 0, "%d failing" % bad, reported=True)
+    ctx.stats["abort_family_scenarios"] = n
+    return bad
+
+
 def check(ctx):
     # the monitor runs on every implementation line, also where model and engine agree
     gens = [("reset", 400, 30000, reset_case), ("sync", 500, 20000, lambda r: schedgen.gen_case(r, schedgen.gen_sync_prog(r))),
@@ -90,9 +150,22 @@ def check(ctx):
             "ExecuteThread overload, random and as a fixed family; every engine answer is also checked by the monitor idle=>all pools empty, "
             "alive=>not idle, every instance has a thread, Reset=>all pools empty; non-trivial = at least one accepted command; distinct by SHA-1")
     rc = schedcheck.run(ctx, PROP, PROPS_MODULE, PROPS_FILE, gens, TRUSTED, ASSUME, rule, exhaustive=every_boundary,
-                        line_monitor=monitor)
+                        line_monitor=monitor, extra_engine=engine_only_family)
     return rc
 
 
 def replay(ctx, obj):
+    if obj.get("kind") == "engine-only family":
+        exe = schedcheck.build_engine(ctx)
+        impl, crash, info = common.run_lines(exe, [], obj["lines"], timeout=60)
+        for l, a in zip(obj["lines"], impl):
+            print("> %s\n  impl : %s%s" % (l[:60], a, "   <-- " + monitor(a) if monitor(a) else ""))
+        if crash:
+            print("CRASH", crash); print(info)
+        bad = crash is not None or impl != obj.get("impl_out")
+        still = crash is not None or any(monitor(a) for a in impl) or any(
+            int(schedcheck.fields(a).get(k, "0")) for l, a in list(zip(obj["lines"], impl))[3:] if l == "reset-director" or l.startswith("script ")
+            for k in ("cls", "thr", "vm", "tim"))
+        print("replay:", "still fails" if still else "no failure")
+        return 1 if still else 0
     return schedcheck.replay(ctx, PROP, obj)
